@@ -244,6 +244,20 @@ fn run_beh(beh: &Value, args: &Args, notes: &mut Vec<String>) -> Result<(u64, us
         let h = w.reps.get_mut(&1).unwrap().hello().map_err(|e| f(0, "tool:hello", err_class(&e)))?;
         w.hellos.insert(1, *h.id.as_array());
     }
+    if args.opt_bool("boot_all") {
+        // Replica!BootAll: every replica starts with the graph (init delivered and committed)
+        for r in 2..=nreps {
+            let rep = w.reps.get_mut(&r).unwrap();
+            let mut t = rep.txn();
+            let mut sink = ASink::new();
+            rep.deliver(&mut t, &mut sink, std::slice::from_ref(&w.uni[&1])).map_err(|e| f(0, "tool:boot", err_class(&e)))?;
+            rep.commit(t, &mut sink).map_err(|e| f(0, "tool:boot", err_class(&e)))?;
+            let v = rep.view().map_err(|e| f(0, "tool:view", e))?;
+            let h = rep.hello().map_err(|e| f(0, "tool:hello", err_class(&e)))?;
+            w.views.insert(r, v);
+            w.hellos.insert(r, *h.id.as_array());
+        }
+    }
     let mut poisoned: BTreeSet<(u64, u64)> = BTreeSet::new();
     let steps = beh.a("steps");
     for (si, st) in steps.iter().enumerate() {
